@@ -52,6 +52,9 @@ pub fn templates() -> Vec<E> {
         fget(fget(object(None, vec![field("v", h())]), "v"), "v"),
         array(int(2), fget(h(), "v")),
         call("g", vec![h(), h()]),
+        binop("|", t(), h()), binop("&", f(), h()), binop("*", int(0), h()), binop("+", h(), int(0)),
+        block(vec![set("gx", int(2)), array(var("gx"), block(vec![set("gx", binop("+", var("gx"), int(1))), h()]))]),
+        array(int(2), idx(var("go"), h())), array(int(2), binop("+", var("go"), h())),
     ]
 }
 
